@@ -771,3 +771,30 @@ def _adaptor(ip, st, t, a, rt):
     ip.closure_runs.append({'term': t, 'closure': path, 'stream': I.frozen(a[0]), 'item': item, 'result': res,
                             'events': ip.events[n0:], 'body': st.body, 'adaptor': (t.get('callee') or '').rsplit('::', 1)[-1]})
     return NotImplemented
+
+
+# --- integer ranges with constant bounds (used by loop unrolling) ------------------------------------------
+def _range_st(v):
+    v = deref(v)
+    return v if isinstance(v, I.St) and isinstance(v.adt, str) and v.adt.endswith('ops::Range') and set(v.fields) >= {'start', 'end'} else None
+
+
+@reg('<I as std::iter::IntoIterator>::into_iter')
+def _into_iter(ip, st, t, a, rt):
+    if _range_st(a[0]) is not None and not isinstance(a[0], I.Ref):
+        return a[0]
+    return NotImplemented
+
+
+@reg('std::iter::range::<impl std::iter::Iterator for std::ops::Range<A>>::next')
+def _range_next(ip, st, t, a, rt):
+    r = _range_st(a[0])
+    if r is None or not isinstance(a[0], I.Ref) or not ip.unrolling:
+        return NotImplemented
+    s0, e0 = r.fields['start'], r.fields['end']
+    if not (isinstance(s0, RF) and isinstance(e0, RF) and s0.is_const() and e0.is_const()):
+        return NotImplemented
+    if s0.const_value() < e0.const_value():
+        I.write_lv(a[0].lv, I.St(r.adt, r.variant, {'start': s0 + 1, 'end': e0}, r.base))
+        return I.some(s0)
+    return I.NONE
